@@ -332,6 +332,7 @@ def accuracy(ctx, n_curves):
                         if a > 1e-9 and b > 1e-11:
                             ratios[kind].append(a / b)
                             ctx.count(f"T2:conclusive refinement ratio[{kind}]")
+    nonuniform_accuracy(ctx, be, max(4, n_curves // 4))
     for kind, thr in (("linear", 3.0), ("cubic", 5.5)):
         r = np.array(ratios[kind])
         if r.size >= 30:
@@ -349,6 +350,78 @@ def accuracy(ctx, n_curves):
             ctx.mark_inconclusive(f"too few conclusive refinement ratios for {kind}: {r.size}")
     ctx.note("n_ratios_linear", len(ratios["linear"]))
     ctx.note("n_ratios_cubic", len(ratios["cubic"]))
+
+
+def nonuniform_accuracy(ctx, be, n_curves):
+    """Non-uniform grids (jittered and graded): every hit inside its bracket, on the plane (affine section), and within the
+    linear-interpolation error of that interval — for linear and cubic interpolation, with and without segment refinement.
+    (The faster-than-second-order clause is stated for uniform grids only and is not asserted here.)"""
+    rng = ctx.rng
+    for it in range(n_curves):
+        if not ctx.mine(it):
+            continue
+        cv = Curve(rng)
+        T = float(rng.uniform(2, 5))
+        normal = rng.normal(size=6)
+        normal /= np.linalg.norm(normal)
+        offset = float(rng.normal() * 0.2)
+        roots = exact_roots(cv, normal, offset, T)
+        if not roots:
+            continue
+        n = int(rng.choice([200, 400]))
+        u = np.linspace(0, 1, n + 1)
+        if it % 2 == 0:
+            jitter = rng.uniform(-0.35, 0.35, n + 1) / n
+            jitter[0] = jitter[-1] = 0.0
+            times = T * np.sort(u + jitter)
+            gname = "jittered"
+        else:
+            times = T * u ** float(rng.uniform(1.2, 1.6))
+            gname = "graded"
+        if len(np.unique(times)) < len(times):
+            continue
+        dts = np.diff(times)
+        rt = np.array([r for r, _ in roots])
+        gd = np.array([float(cv.dx(r)[0] @ normal) for r in rt])
+        M2 = np.abs(cv.dx(np.linspace(0, T, 2001), order=2) @ normal).max()
+        M2x = np.abs(cv.dx(np.linspace(0, T, 801), order=2)).max()
+        hmax = dts.max()
+        if (len(rt) > 1 and np.min(np.diff(rt)) < 6 * hmax) or np.min(np.abs(gd)) < 6 * M2 * hmax or rt[0] < times[3] or rt[-1] > times[-4]:
+            ctx.skip("analytic crossings too close / too tangential for the non-uniform grid")
+            continue
+        states = cv.x(times)
+        names, pidx = plane_names(rng)
+        direction = [None, 1, -1][it % 3]
+        want = [(r, s_) for r, s_ in roots if direction is None or s_ == direction]
+        for kind in ("linear", "cubic"):
+            for refine in (0, 3):
+                hits = run_detector(be, times, states, normal=normal, offset=offset, plane_coords=names, interp_kind=kind,
+                                    segment_refine=refine, direction=direction, dedup_time_tol=0.0, dedup_point_tol=0.0)
+                ctx.case(f"nonuniform:{gname}:{kind}:refine{refine}", [it, ctx.seed, n, gname, kind, refine], nontrivial=len(want) > 0)
+
+                def wit():
+                    return {"grid": gname, "n": n, "T": T, "kind": kind, "refine": refine, "direction": direction, "normal": normal, "offset": offset,
+                            "exact": [r for r, _ in want], "lib": [h.time for h in hits]}
+                if not ctx.check(len(hits) == len(want), "T4:one hit per admissible exact crossing (non-uniform grid)", wit):
+                    continue
+                for (r, s_), h in zip(want, hits):
+                    k = int(np.searchsorted(times, r) - 1)
+                    dt = times[k + 1] - times[k]
+                    ctx.check(times[k] - 1e-12 <= h.time <= times[k + 1] + 1e-12, "T4:hit inside its bracketing interval (non-uniform grid)", wit)
+                    gdot = abs(float(cv.dx(r)[0] @ normal))
+                    bound_t = 0.5 * M2 * dt * dt / gdot * 1.5 + 1e-13
+                    vmax = np.abs(cv.dx(r)[0]).max()
+                    # neighbour slopes of the cubic span up to three intervals: allow the largest of them in the bound
+                    dloc = dts[max(0, k - 1):k + 2].max()
+                    bound_x = 0.5 * M2x * dloc * dloc + vmax * bound_t * 1.5 + 1e-13
+                    et, ex = abs(h.time - r), np.abs(h.state - cv.x(r)[0]).max()
+                    gres = abs(float(h.state @ normal - offset))
+                    ctx.stat(f"T4:state_err/linear_bound[{kind}:refine{refine}]", ex / bound_x)
+                    ctx.check(et <= bound_t * (dloc / dt) ** 2 and ex <= bound_x, "T4:error <= linear-interpolation error of the interval (non-uniform grid)",
+                              lambda: {**wit(), "t_err": et, "bound_t": bound_t, "x_err": ex, "bound_x": bound_x})
+                    # on the plane: exact for linear interpolation; for cubic the plane residual is bounded by the same interpolation error
+                    ctx.check(gres <= (1e-11 if kind == "linear" else bound_x * 6) * (1 + np.abs(h.state).max()),
+                              "T4:hit lies on the section within the interpolation error (non-uniform grid)", lambda: {**wit(), "g_hit": gres})
 
 
 def hermite_units(ctx):
